@@ -20,7 +20,9 @@ OBLIGATIONS = ["NiftyVerif.C01." + t for t in (
     "dom_tgt_masks", "backwards_spec", "mask_specs", "adapter_table_specs", "diag_kind_specs",
     "den_scaling", "den_diag", "den_adapter", "den_chain", "den_sum", "den_sandwich", "den_null", "den_idEntry",
     "diagScale_sound", "diagCombineProd_sound", "diagCombineProd_comm", "diagAdd_sound", "diagCombineSum_sound",
-    "flip_scaling_sound", "flip_diag_sound", "flip_adapter_sound",
+    "flip_scaling_sound", "flip_diag_sound", "flip_adapter_sound", "cap_spec",
+    "den_chain_mprod", "chainMergeDiag_sound", "chainCollect_sound", "chainAbsorb_sound", "chainFlatten_sound",
+    "chainAppend_sound", "chainNullCollapse_sound", "chainPost_sound", "chainSimplifyCore_sound", "mkChainU_sound",
 )]
 RULE = ("random construction scripts (typed generator over 8 small domains, 14 leaves with independently known exact "
         "matrices, scaling/diagonal/partial-space diagonal/null/block-diagonal/sandwich/InversionEnabler, combined with "
